@@ -125,6 +125,27 @@ func fatal2(msg string) {
 	os.Exit(2)
 }
 
+func maxThreadsOf(c Config) int {
+	if c.MaxThreads > 0 {
+		return c.MaxThreads
+	}
+	return maxThreads
+}
+
+func poolOrderOf(c Config) string {
+	if c.PoolOrder == "lifo" {
+		return "newest first, nothing dropped"
+	}
+	return "any pooled item or none"
+}
+
+func clockOf(c Config) string {
+	if c.ClockTickNs > 0 {
+		return fmt.Sprintf("concrete, %d ns per reading", c.ClockTickNs)
+	}
+	return "arbitrary non-decreasing"
+}
+
 func applyCfg(c *Config, m map[string]interface{}) {
 	if m == nil {
 		return
@@ -439,7 +460,9 @@ func writeEvidence(prop, tier string, seed int64, spec *Spec, eng *Engine, resul
 			"solver_queries": ex.solverQ, "solver_time_s": round2(ex.solverT.Seconds()), "wall_s": round2(er.WallS),
 			"covers": ex.covers, "cuts": ex.cuts, "missing_covers": er.Missing, "findings": fl,
 			"engine_bounds": map[string]interface{}{"unwind": er.Cfg.Unwind, "max_steps": er.Cfg.MaxSteps, "map_order": er.Cfg.MapOrder,
-				"realloc": er.Cfg.Realloc, "preemption_bound": er.Cfg.Preempt, "pool_drops": er.Cfg.PoolDrops},
+				"realloc": er.Cfg.Realloc, "preemption_bound": er.Cfg.Preempt, "pool_drops": er.Cfg.PoolDrops,
+				"max_alloc_cells": er.Cfg.MaxAlloc, "max_paths": er.Cfg.MaxPaths, "max_threads": maxThreadsOf(er.Cfg),
+				"one_fixed_schedule": er.Cfg.SchedFixed, "pool_order": poolOrderOf(er.Cfg), "clock": clockOf(er.Cfg)},
 			"translator_validated_paths": er.Validated, "stopped": ex.stopWhy,
 		})
 	}
